@@ -557,6 +557,9 @@ class ExprMixin:
         if isinstance(ty, TDict):
             val = z3.Const(fresh_name("val0"), z3.ArraySort(sort_of(ty.k), sort_of(ty.v)))
             return Val(ty, d_mk(ty, z3.K(sort_of(ty.k), z3.BoolVal(False)), val))
+        h = getattr(self, "empty_handlers", {}).get(ty.key)
+        if h:
+            return h(self)
         raise Unsupported("empty value of %s" % ty)
 
     # -- subscripts ------------------------------------------------------------
